@@ -7,6 +7,7 @@
 //! * `panics`     - process-wide panic recorder (silent hook).
 //! * `fnv`        - stable 64-bit hash for traces / distinctness counting.
 
+pub mod abort;
 pub mod panics;
 pub mod pipeline;
 pub mod simkv;
